@@ -55,12 +55,12 @@ func checks() map[string]CheckDef {
 			{Pkg: "internal/zzverif/c04", Func: "HarnessCommonAncestor", Quick: [][]int64{{3, 1}, {3, 2}, {4, 2}}, Thorough: [][]int64{{3, 3}, {5, 2}, {5, 3}}, Labels: []string{"C04/common-ancestor-unknown-hash-is-an-error", "C04/common-ancestor-found-iff-one-exists", "C04/common-ancestor-is-the-highest-common-one"}},
 			{Pkg: "internal/zzverif/c04", Func: "HarnessCommonAncestorFork", Thorough: [][]int64{{3}},
 				Labels: []string{"C04/common-ancestor-found-iff-one-exists", "C04/common-ancestor-is-the-highest-common-one"}},
-			{Pkg: "internal/zzverif/c04", Func: "HarnessFreshAnswers", Quick: [][]int64{{1, 0}, {1, 1}, {1, 2}, {1, 3}, {1, 4}, {1, 5}, {1, 6}, {1, 7}, {1, 8}, {2, 5}, {2, 7}}, Thorough: [][]int64{{2, 0}, {2, 1}, {2, 2}, {2, 3}, {2, 4}, {2, 5}, {2, 6}, {2, 7}, {2, 8}, {3, 5}, {3, 7}},
+			{Pkg: "internal/zzverif/c04", Func: "HarnessFreshAnswers", Quick: [][]int64{{1, 0}, {1, 1}, {1, 2}, {1, 3}, {1, 4}, {1, 5}, {1, 6}, {1, 7}, {1, 8}, {2, 0}, {2, 4}, {2, 5}, {2, 7}}, Thorough: [][]int64{{2, 0}, {2, 1}, {2, 2}, {2, 3}, {2, 4}, {2, 5}, {2, 6}, {2, 7}, {2, 8}, {3, 5}, {3, 7}},
 				Labels: []string{"C04/read-routes-registered", "C04/answer-after-ingestion-equals-a-fresh-process"}},
 			{Pkg: "transports/http/endpoints/api/headers", Func: "HarnessMapHeader", Quick: [][]int64{{2}}, Thorough: [][]int64{{3}}, Labels: []string{"C04/header-response-carries-the-stored-fields", "C04/state-response-carries-the-stored-fields", "C04/list-response-keeps-length-and-order"}},
 			{Pkg: "transports/http/endpoints/api/tips", Func: "HarnessMapTip", Quick: [][]int64{{2}}, Thorough: [][]int64{{3}}, Labels: []string{"C04/tip-response-carries-the-stored-fields", "C04/tips-response-keeps-length-and-order"}},
 		},
-		Bounds:  []string{"arbitrary INV-H store of k rows (quick k<=4, thorough k<=5), every column symbolic; query hash an arbitrary string (by-hash/state) or any ordered pair of distinct stored headers (ancestors); by-height: any height and count with |.| < 2^40; common-ancestor: every list of n stored-or-unknown hashes (quick k<=4 n<=2; thorough k=3 n=3, k=5 n<=3, and the two-branch shape of 5 rows with n=3), on stores without a parent stored after its child", "no state outside the store: for each of the 9 routes under /api/v1/chain (enumerated from the routing table; auth off) one arbitrary request, then one arbitrary new header ingested through the same process, then the same request again - its answer (status and documents) equals that of a freshly assembled application over the same database; k=1 for every route and k=2 for the merkle-root listing and tips (quick), k=2 for every route and k=3 for those two (thorough)"},
+		Bounds:  []string{"arbitrary INV-H store of k rows (quick k<=4, thorough k<=5), every column symbolic; query hash an arbitrary string (by-hash/state) or any ordered pair of distinct stored headers (ancestors); by-height: any height and count with |.| < 2^40; common-ancestor: every list of n stored-or-unknown hashes (quick k<=4 n<=2; thorough k=3 n=3, k=5 n<=3, and the two-branch shape of 5 rows with n=3), on stores without a parent stored after its child", "no state outside the store: for each of the 9 routes under /api/v1/chain (enumerated from the routing table; auth off) one arbitrary request, then one arbitrary new header ingested through the same process, then the same request again - its answer (status and documents) equals that of a freshly assembled application over the same database; k=1 for every route and k=2 for header by hash, header state, the merkle-root listing and tips (quick), k=2 for every route and k=3 for those two (thorough)"},
 		Outside: []string{"JSON encoding of the response structs (field names / tags); the struct-level mapping is checked for every header with a timestamp within uint32 seconds", "PostgreSQL", "tips: the row order of the UNION is unspecified, the result is compared as a set"},
 		Stubs:   []string{"zerolog calls have no effect", "sqlx over the sqlm model"},
 	})
@@ -208,6 +208,8 @@ func checks() map[string]CheckDef {
 				Labels: []string{"C06/empty-answer-sends-nothing", "C06/announced-unknown-block-is-requested", "C06/sync-peer-kept-when-another-connects"}},
 			{Pkg: "transports/p2p/p2psync", Func: "HarnessSyncPeerLost", Quick: [][]int64{{0, 0}, {1, 0}, {0, 1}}, Thorough: [][]int64{{2, 0}, {3, 0}, {2, 1}},
 				Labels: []string{"C06/another-candidate-takes-over", "C06/new-sync-peer-is-asked"}},
+			{Pkg: "transports/p2p/p2psync", Func: "HarnessInvWithoutSyncPeer", Quick: [][]int64{{0, 0}, {1, 0}, {0, 1}}, Thorough: [][]int64{{2, 0}, {3, 0}, {2, 1}},
+				Labels: []string{"C06/announced-unknown-block-is-requested", "C06/answer-to-our-own-request-is-processed"}},
 			{Pkg: "transports/p2p/p2psync", Func: "HarnessSyncInvariantStep", Quick: [][]int64{{1, 0, 0}, {2, 1, 0}, {2, 0, 1}}, Thorough: [][]int64{{3, 1, 0}, {3, 0, 1}, {2, 2, 0}},
 				Labels: []string{"C06/sync-invariant-preserved-by-every-event"}},
 			{Pkg: "transports/p2p/p2psync", Func: "HarnessStalledSyncPeer", Quick: [][]int64{{1, 0}, {0, 1}}, Thorough: [][]int64{{2, 0}, {3, 0}, {1, 1}},
@@ -215,7 +217,7 @@ func checks() map[string]CheckDef {
 			{Pkg: "transports/p2p/p2psync", Func: "HarnessHeadersBatch", Quick: [][]int64{{2, 1}, {2, 2}}, Thorough: [][]int64{{3, 2}, {4, 1}},
 				Labels: []string{"C07/exactly-one-follow-up-request", "C07/request-stops-at-the-next-checkpoint", "C07/after-the-last-checkpoint-requests-are-unbounded", "C07/matching-checkpoint-advances-sync-from-it"}},
 		},
-		Bounds: []string{"inductive step: the invariant 'a sync peer is a registered peer with its bookkeeping and headers are expected; whenever a registered candidate is strictly ahead of our tip there is a sync peer' is preserved by one arbitrary event (peer connects / leaves, headers from any peer with any outcome, inv from any peer, periodic check with any idle time) from every manager state of m registered peers (quick m<=2, thorough m<=3) satisfying it", "C06 is claimed as step obligations of the default sync engine, not as a liveness proof: P1 choice of the sync peer and the first request (m<=3 candidate peers connecting in turn with arbitrary best heights, arbitrary own tip, n<=2 arbitrary ascending checkpoints or checkpoints disabled, manager built by the real constructor); P2 an answer that makes progress keeps the peer and is followed by exactly one request from the new tip; P3 batch continuation incl. checkpoint hand-over (HarnessHeadersBatch, shared with C07); P4 a block announced by inv (by the sync peer or by another connected peer, the node being current) after an answer that brought nothing new is requested from the announcer and the request really reaches the peer's send queue (through the real duplicate-request filter of peer.Peer); P5 when the sync peer leaves, another candidate takes over and is asked; P6 the periodic check disconnects a sync peer that delivered nothing for more than the stall limit (any idle time up to 2^20 s except within 10 s of the 180 s limit) while we are below its height and asks another candidate, and keeps one within the limit or caught up",
+		Bounds: []string{"inductive step: the invariant 'a sync peer is a registered peer with its bookkeeping and headers are expected; whenever a registered candidate is strictly ahead of our tip there is a sync peer' is preserved by one arbitrary event (peer connects / leaves, headers from any peer with any outcome, inv from any peer, periodic check with any idle time) from every manager state of m registered peers (quick m<=2, thorough m<=3) satisfying it", "C06 is claimed as step obligations of the default sync engine, not as a liveness proof: P1 choice of the sync peer and the first request (m<=3 candidate peers connecting in turn with arbitrary best heights, arbitrary own tip, n<=2 arbitrary ascending checkpoints or checkpoints disabled, manager built by the real constructor); P2 an answer that makes progress keeps the peer and is followed by exactly one request from the new tip; P3 batch continuation incl. checkpoint hand-over (HarnessHeadersBatch, shared with C07); P4 a block announced by inv (by the sync peer or by another connected peer, the node being current) after an answer that brought nothing new is requested from the announcer and the request really reaches the peer's send queue (through the real duplicate-request filter of peer.Peer); P5 when the sync peer leaves, another candidate takes over and is asked; P7 with no sync peer ever chosen (all peers behind) a caught-up peer's inv is followed by a request whose answer is processed, not dropped as unrequested; P6 the periodic check disconnects a sync peer that delivered nothing for more than the stall limit (any idle time up to 2^20 s except within 10 s of the 180 s limit) while we are below its height and asks another candidate, and keeps one within the limit or caught up",
 			"the convergence argument built from the steps (each answered request either adds headers or ends at the peer's tip; every such state has exactly one outstanding request or is current) is an argument, not solver-checked"},
 		Outside: []string{"the ticker and the blockHandler select loop, sockets and goroutines; the network-speed half of the periodic check (bytes received per tick)", "the experimental engine (transports/p2p/peer + network), whose sync loop is goroutines over sockets", "reorganisation to a more-work chain is C01/C03 (storage) - the engine only has to keep asking", "headers arriving from a peer that is not the sync peer", "map iteration order in startSync is insertion order in the encoder (the choice among equal candidates is by crypto/rand, modelled as arbitrary)"},
 		Stubs:   []string{"service.Headers replaced by a stub with an arbitrary tip (height, hash, IsCurrent)", "service.Chains stub returning the stated outcome per header", "real peerpkg.Peer objects marked connected with a no-op connection; queued messages and Disconnect observed through in-package helpers", "crypto/rand.Int returns an arbitrary value in [0, max)", "SyncManager.logSyncState (logging) is a no-op"},
@@ -225,12 +227,14 @@ func checks() map[string]CheckDef {
 		Runs: []HRun{
 			{Pkg: "internal/zzverif/c15", Func: "HarnessTwoSubmitters", Quick: [][]int64{{1, 1}, {1, 2}}, Thorough: [][]int64{{1, 3}, {2, 1}, {2, 2}},
 				Labels: []string{"C15/rows-wellformed", "C15/both-submissions-stored-once", "C15/old-rows-keep-everything-but-state", "C15/one-longest-header-per-height", "C15/store-is-a-sequential-outcome", "C15/one-event-per-stored-header"}},
+			{Pkg: "internal/zzverif/c15", Func: "HarnessForkBelowTip", Quick: [][]int64{{2, 1}, {2, 2}}, Thorough: [][]int64{{3, 1}, {2, 3}},
+				Labels: []string{"C15/both-submissions-stored-once", "C15/one-longest-header-per-height", "C15/store-is-a-sequential-outcome"}},
 			{Pkg: "internal/zzverif/c15", Func: "HarnessTwoBranches", Quick: [][]int64{{3, 1}}, Thorough: [][]int64{{3, 2}},
 				Labels: []string{"C15/both-submissions-stored-once", "C15/one-longest-header-per-height", "C15/store-is-a-sequential-outcome"}},
 			{Pkg: "internal/zzverif/c15", Func: "HarnessReaderDuringAdd", Quick: [][]int64{{2}, {3}}, Thorough: [][]int64{{3}, {4}},
 				Labels: []string{"C15/reader-gets-a-tip", "C15/observed-tip-is-stored", "C15/observed-tip-is-the-highest-longest-chain-header", "C15/observed-longest-chain-is-one-path-from-genesis"}},
 		},
-		Bounds:  []string{"two concurrent Add calls with two different new headers (arbitrary parents: stored or not, each other, equal or different) on an arbitrary INV-H store of k rows (quick k=1, thorough k<=2), interleaved in every way at repository-method granularity with at most p preemptions (quick p<=2, thorough p<=3 at k=1, p<=2 at k=2); the schedule is a vector of solver variables; the outcome is compared with both sequential orders run on copies of the same store", "the slice 'one header extends the longest chain, the other a stored stale branch' one row further: k=3, p=1 (quick) / p=2 (thorough)", "one tip reader at an arbitrary storage-operation boundary of one Add on an arbitrary INV-H store (quick k<=3, thorough k<=4: includes a reorganisation)"},
+		Bounds:  []string{"two concurrent Add calls with two different new headers (arbitrary parents: stored or not, each other, equal or different) on an arbitrary INV-H store of k rows (quick k=1, thorough k<=2), interleaved in every way at repository-method granularity with at most p preemptions (quick p<=2, thorough p<=3 at k=1, p<=2 at k=2); the schedule is a vector of solver variables; the outcome is compared with both sequential orders run on copies of the same store", "the slice 'one header extends the longest chain, the other a stored stale branch' one row further: k=3, p=1 (quick) / p=2 (thorough)", "the slice 'one header extends the tip, the other forks off a longest-chain header below the tip': k=2, p<=2 (quick) / k=3 (thorough)", "one tip reader at an arbitrary storage-operation boundary of one Add on an arbitrary INV-H store (quick k<=3, thorough k<=4: includes a reorganisation)"},
 		Outside: []string{"data-race freedom (a property of unsynchronised memory accesses, not of values: the race detector's job, not expressible as an assertion over this execution)", "free-running goroutine schedules, peers connecting and disconnecting, the shared peers map, notification delivery concurrency", "three or more submitters; preemption inside a repository method (each is one statement or one single-statement transaction)", "submissions of an already stored or forbidden header (sequential behaviour is C01)"},
 		Stubs:   []string{"scheduling points (vh.Yield) are placed in front of every repository.Headers method that Add uses by a wrapper in the harness", "sync.Mutex modelled for the two threads (a thread that blocks hands control to the holder)", "hasher returns an arbitrary distinct hash per submitted header", "notifier counts events"},
 	})
